@@ -2,6 +2,7 @@
 import ast
 
 from ..model import AnalysisError, norm, head, walk_own, Cls, Func, qual_of
+from ..paths import only_via_feasible
 from .par import only_via, calls_in, is_method_call
 
 CACHE = 'parso/cache.py'
@@ -376,6 +377,11 @@ def _depends(f, e, seen=None, depth=0):
     return out
 
 
+# functions the cache rules look up by name: an inlined view of their callers keeps the calls to them
+KEEP = ('_get_hashed_path', '_get_cache_directory_path', '_set_cache_item', '_load_from_file_system', '_save_to_file_system',
+        '_remove_cache_and_update_lock', '_touch', '_get_default_cache_path')
+
+
 def cache_4(ctx, rep, roles):
     rep.rule('CACHE-4', 'the pickle path depends on the cache directory, the version tag (implementation, major, minor, '
                         'pickle version), the grammar hash and a hash of the file path; writer and reader use the same '
@@ -423,8 +429,8 @@ def cache_4(ctx, rep, roles):
     miss = [x for x in need if x not in t]
     rep.ob('CACHE-4', CACHE, '<module>', '_VERSION_TAG', not miss, 'version tag lacks %s' % miss)
     # writer / reader agreement
-    sv = prog.func(CACHE, '_save_to_file_system')
-    ld = prog.func(CACHE, '_load_from_file_system')
+    sv = ctx.view(prog.func(CACHE, '_save_to_file_system'), keep=KEEP)
+    ld = ctx.view(prog.func(CACHE, '_load_from_file_system'), keep=KEEP)
 
     def path_calls(f):
         return [n for n in walk_own(f.node) if isinstance(n, ast.Call) and norm(n.func) == '_get_hashed_path']
@@ -564,7 +570,7 @@ def cache_2_3(ctx, rep, roles):
     rep.rule('CACHE-3', 'the time stored as the freshness reference of an entry is sampled before the file content is read')
     prog = ctx.prog
     for qual in ('load_module', '_load_from_file_system'):
-        f = prog.func(CACHE, qual)
+        f = ctx.view(prog.func(CACHE, qual), keep=KEEP)      # helpers the body was split into are read in place
         cfg = ctx.cfg(f)
         rets = [n for n in cfg.nodes if n.kind == 'stmt' and isinstance(n.ast, ast.Return)
                 and n.ast.value is not None and norm(n.ast.value).endswith('.node')]
@@ -577,7 +583,7 @@ def cache_2_3(ctx, rep, roles):
                 if lab == 'BAD':
                     detail = 'freshness comparison %s has the wrong direction / strictness' % norm(t.ast)
                     continue
-                if only_via(cfg, r, lambda e, t=t: e is t.ast, lab):
+                if only_via(cfg, r, lambda e, t=t: e is t.ast, lab) or only_via_feasible(cfg, r, lambda e, t=t: e is t.ast, lab):
                     ok = True
             rep.ob('CACHE-2', CACHE, f.qual, norm(r.ast), ok, detail)
         if not rets:
@@ -736,7 +742,7 @@ def exc_2(ctx, rep):
                        'the unpickled object is used as an entry without a type test and outside a handler for Exception: a '
                        'cache file that is a valid pickle of something else (b"N." is None) makes parse() raise AttributeError',
                        reason='isinstance test holds here' if checked else 'inside a try that absorbs Exception')
-    rep.minimum('EXC-2', 2)
+    rep.minimum('EXC-2', 1)
 
 
 # ---------------------------------------------------------------------------
